@@ -54,6 +54,8 @@ type Wiring struct {
 	Passes       bool   `json:"passes_start_to_chain"`
 	Ctor         string `json:"ctor"`
 	Error        string `json:"error,omitempty"`
+	// what GetStartBlock is given, parameter by parameter (startcall.go); nil: no such call
+	StartCall *StartCall `json:"start_call,omitempty"`
 }
 
 var fset = token.NewFileSet()
@@ -195,6 +197,17 @@ func extractKind(kind string, body []ast.Stmt, imports map[string]string, blocks
 	}
 	for i := 0; i < len(body); i++ {
 		s := body[i]
+		// startBlock, err := blockstore.GetStartBlock(...), directly or through helper functions of
+		// package app, with whatever (recognisable) arguments: startcall.go
+		if call, ok := definesStartBlock(s); ok {
+			if defined {
+				fail("%s: unexpected GetStartBlock statement: %s", kind, str(s))
+			}
+			w.StartCall = startCallOf(kind, call, branchScope(kind, body, i, imports, blockstoreVar), blockstoreVar, nil)
+			w.ReadsStore = true
+			defined = true
+			continue
+		}
 		if as, ok := s.(*ast.AssignStmt); ok && len(as.Rhs) == 1 {
 			if q, name, call, ok := selCall(as.Rhs[0]); ok {
 				// listener construction
@@ -388,6 +401,9 @@ func extractKind(kind string, body []ast.Stmt, imports map[string]string, blocks
 		w.Error = fmt.Sprintf("%s: %s is given %s as start block", kind, w.Ctor, w.ChainExpr)
 	case w.ListenerStep == "other" || w.ListenerConf == "other":
 		w.Error = fmt.Sprintf("%s: %s is built with an unrecognised block interval / confirmation depth", kind, spec.listenerCtor)
+	case w.StartCall != nil && w.StartCall.Block != "configured" && w.ChainArg == "configured":
+		// the runners hand ONE configured start block to both places
+		w.Error = fmt.Sprintf("%s: GetStartBlock and %s are given different start blocks", kind, w.Ctor)
 	}
 	return w
 }
@@ -511,6 +527,7 @@ func extractAll(repo string) map[string]Wiring {
 	if blockstoreVar == "" {
 		fail("no `x := store.NewBlockStore(db)` (sygma-core store) in Run")
 	}
+	loadAppFuncs(repo)
 	chainGo := filepath.Join(repo, "chains", "btc", "chain.go")
 	hasParam := btcParam(chainGo)
 	out := map[string]Wiring{}
